@@ -281,6 +281,42 @@ def tie_policy(ctx):
     bad = common.coq_bad_indices(out) if ok else None
     ctx.oblige(f"tie:translated failure policy == _resolve_strict_optimizer_failures ({len(rows)} (arg, env) pairs)", bad == [], "tie",
                out[-800:] if bad is None else f"differs on {[rows[i] for i in bad[:4]]}")
+    # which policy shape the current code has (decided by the AST shape check of the regen unit): the strong theorem
+    # C16_default_policy_returns_input is about the restoring shape
+    gen = open(os.path.join(common.COQ, "gen", "GenPolicy.v")).read()
+    restores = "Definition failure_policy_restores_input : bool := true." in gen
+    ctx.oblige("tie:current-code-restores-the-un-optimised-model-on-a-non-fatal-optimizer-failure(failure_policy_restores_input = true)", restores, "tie",
+               "" if restores else "the policy keeps the partially optimised model: an exception raised inside a pass leaves an inconsistent graph")
+    # and it really does: a pass that mutates the graph and then raises must leave the model exactly as it was
+    import onnx_ir as ir
+    from jax2onnx.converter import ir_optimizations as opt
+    x = ir.val("x", ir.DataType.FLOAT, (2,))
+    y = ir.val("y", ir.DataType.FLOAT, (2,))
+    z = ir.val("z", ir.DataType.FLOAT, (2,))
+    g = ir.Graph([x], [z], nodes=[ir.Node("", "Relu", [x], outputs=[y], name="a"), ir.Node("", "Neg", [y], outputs=[z], name="b")],
+                 name="g", opset_imports={"": 23})
+    model = ir.Model(g, ir_version=10)
+    before = [(n.op_type, [v.name for v in n.inputs], [v.name for v in n.outputs]) for n in model.graph]
+
+    def vandal(graph):
+        nodes = list(graph)
+        ir.convenience.replace_all_uses_with(nodes[0].outputs[0], nodes[0].inputs[0], replace_graph_outputs=True)
+        graph.remove(nodes[0])
+        raise RuntimeError("injected after mutation")
+    saved = opt._OPTIMIZER_PASSES
+    try:
+        opt._OPTIMIZER_PASSES = (opt._OptimizerPass(name="vandal", model_runner=None, graph_runner=vandal, function_graph_runner=None),)
+        capi._optimize_graph_with_failure_policy(model, strict_optimizer_failures=False)
+        after = [(n.op_type, [v.name for v in n.inputs], [v.name for v in n.outputs]) for n in model.graph]
+        same = after == before and [o.name for o in model.graph.outputs] == ["z"]
+    except Exception as e:  # noqa
+        same, after = False, f"raised {type(e).__name__}: {e}"
+    finally:
+        opt._OPTIMIZER_PASSES = saved
+    if restores and not same:
+        ctx.violate("policy-restore vandal-pass", f"after a pass that mutated the graph and raised, the default policy returned {after} instead of the input {before}",
+                    {"kind": "policy_restore", "before": before, "after": str(after)})
+    ctx.coverage["policy_restores_input"] = {"flag": restores, "vandal_pass_left_model_intact": bool(same)}
 
 
 # ------------------------------------------------------------------ real-code sweeps
